@@ -79,7 +79,7 @@ def design_level(out, tier):
             raise MachineryError('MCFanout_%s: %s %s\n%s' % (name, res.error, res.violation, res.out[-1500:]))
         first = open(os.path.join(VERIF, 'spec', 'MCFanout_%s.cfg' % name)).readline().strip()
         out.add_tlc('MCFanout_%s.cfg' % name, res, first)
-    res = run_tlc('MCFanout.tla', 'MCFanout_dev_skip.cfg', workers=4, timeout=300)
+    res = run_tlc('MCFanout.tla', 'MCFanout_dev_skip.cfg', workers=1, timeout=300)
     if res.violation not in ('SameResults', 'UnionIsReference'):
         raise MachineryError('MCFanout_dev_skip was expected to violate SameResults or UnionIsReference, got %s %s' % (res.violation, res.error))
     rej = ['dev_skip (aggregates skip the last shard) violates %s' % res.violation]
@@ -87,7 +87,7 @@ def design_level(out, tier):
     if res.error or res.violation:
         raise MachineryError('MCFanoutRemove_ok: %s %s\n%s' % (res.error, res.violation, res.out[-1500:]))
     out.add_tlc('MCFanoutRemove_ok.cfg', res, 'aggregate removal over 3 shards x 0..3 items, pages of 2, lock holders; CountsEverything, EveryShardOnce, Terminates')
-    res = run_tlc('MCFanoutRemove.tla', 'MCFanoutRemove_dev.cfg', workers=4, timeout=300)
+    res = run_tlc('MCFanoutRemove.tla', 'MCFanoutRemove_dev.cfg', workers=1, timeout=300)
     if res.violation != 'CountsEverything':
         raise MachineryError('MCFanoutRemove_dev was expected to violate CountsEverything, got %s %s' % (res.violation, res.error))
     rej.append('dev (a Timeout count replaces the running total) violates CountsEverything')
